@@ -957,3 +957,24 @@ func Harness_C12_decrypt_schedule() {
 	V.Assert(gotClass == wantClass, "outcome depends on the delivery schedule of the source")
 	V.Assert(bytes.Equal(got, want), "released plaintext depends on the delivery schedule of the source")
 }
+
+// ---------------------------------------------------------------------------
+// C17 (library side): a header that merely mentions a stanza type never makes
+// Decrypt with native identities start a program.
+func Harness_C17_no_exec_on_decrypt() {
+	idA := symIdentity("skA")
+	t := V.Bytes("type", V.Int("tn", 1, 6))
+	for _, c := range t {
+		V.Assume(printableNoSpace[c])
+	}
+	st := []refStanza{{string(t), []string{"a"}, V.Bytes("b", 3)}}
+	fk := V.Bytes("fk", 16)
+	file := append(refHeader(fk, st), make([]byte, 32)...)
+	sid := &ScryptIdentity{password: []byte("pw"), maxWorkFactor: 1}
+	r, err := Decrypt(bytes.NewReader(file), idA, sid)
+	V.Reach("returned")
+	V.Assert(r == nil && err != nil, "a file with only an unknown stanza was opened")
+	if V.Symbolic() {
+		V.Assert(len(V.Execs()) == 0, "Decrypt with native identities started a program")
+	}
+}
